@@ -22,7 +22,7 @@ RULE = ("port expressions: 5 operators x operands from boundaries {1,2,65534,655
         "1..65535; codec on random unions of intervals incl. empty, {1}, {65535}, full; write-back histories of length "
         "1..6 over items/ports/sport. judged = invariant-monitor evaluations + write-backs + codec contract "
         "evaluations; distinct non-trivial = (operator, #operands, boundary class, history shape)")
-ASSUMPTIONS = ["eq/neq operand lists are distinct ('eq 5 5' is outside the grammar)",
+ASSUMPTIONS = ["eq/neq operand lists are distinct for the text clauses; with repeated operands ('eq 5 5 7') only the denoted set is judged",
                "operands outside 1..65535 are outside the quantifier"]
 
 FOUND = []
@@ -50,9 +50,12 @@ def _on_line_set(self, value, exc, token):
     problems = []
     if got != want:
         problems.append(f"ports {intervals.encode(got)!r} != Cisco set {intervals.encode(want)!r}")
-    if len(self.ports) != intervals.size(got):
+    dup = len(set(items)) != len(items)  # repeated operands: only the denoted *set* is judged (ASSUMPTIONS)
+    if dup:
+        STATS["dup"] = STATS.get("dup", 0) + 1
+    if not dup and len(self.ports) != intervals.size(got):
         problems.append("duplicates in ports")
-    if self.sport != intervals.encode(want):
+    if not dup and self.sport != intervals.encode(want):
         problems.append(f"sport {self.sport[:60]!r} != canonical {intervals.encode(want)[:60]!r}")
     try:
         if intervals.decode(self.sport) != want:
@@ -69,6 +72,11 @@ def _pts_ok(items, result) -> bool:
     ints = [i for i in items]
     want = intervals.from_ints(ints)
     ok = result == intervals.encode(want)
+    if not ok and len(set(ints)) != len(ints):  # repeated values: any string that decodes to the set
+        try:
+            ok = intervals.decode(result) == want
+        except ValueError:
+            ok = False
     if not ok:
         FOUND.append({"what": "ports_to_string does not encode exactly the given set",
                       "detail": {"items": list(items)[:20], "result": result[:80]}})
@@ -117,6 +125,15 @@ def execute(ctx, case: dict) -> None:
             import random  # pylint: disable=import-outside-toplevel
 
             random.Random(case["shuffle"]).shuffle(ints)
+        if case.get("dup") and ints:
+            import random  # pylint: disable=import-outside-toplevel
+
+            rnd = random.Random(case["dup"])
+            holes = (max(ints) - min(ints) + 1) - len(set(ints))
+            # as many repeats as the set has holes (length == span, looks contiguous by count alone), or 1..3
+            for _ in range(holes if 0 < holes <= 6 and case["dup"] % 2 else rnd.randint(1, 3)):
+                ints.insert(rnd.randrange(len(ints) + 1), rnd.choice(ints))
+            ctx.count("codec_lists_with_repeated_values")
         try:
             text = helpers.ports_to_string(ints)
             back = helpers.string_to_ports(intervals.encode(iset))
@@ -131,8 +148,10 @@ def execute(ctx, case: dict) -> None:
             if intervals.from_ints(again) != iset:
                 ctx.violation(case, "decoding the same string again is influenced by what the caller did with the first result",
                               {"string": intervals.encode(iset)[:60], "second": again[:12]})
-            if text != intervals.encode(iset):
+            if text != intervals.encode(iset) and not case.get("dup"):
                 ctx.violation(case, "ports_to_string is not the canonical encoding", {"text": text[:80]})
+            if case.get("dup") and intervals.decode(text) != iset:
+                ctx.violation(case, "ports_to_string of a list with repeated values encodes another set", {"text": text[:80]})
         except Exception as ex:  # pylint: disable=broad-except
             ctx.violation(case, "codec raised", f"{type(ex).__name__}: {ex}")
         _drain(case, ctx)
@@ -152,8 +171,16 @@ def execute(ctx, case: dict) -> None:
         problems.append(f"operator {port.operator!r} != {want[0]!r}")
     if intervals.from_ints(port.ports) != wset:
         problems.append(f"ports {port.sport[:60]!r} != Cisco set {intervals.encode(wset)[:60]!r}")
-    if port.sport != intervals.encode(wset):
+    dup = bool(case.get("dups"))
+    if not dup and port.sport != intervals.encode(wset):
         problems.append(f"sport {port.sport[:60]!r} != {intervals.encode(wset)[:60]!r}")
+    if dup:
+        ctx.count("expressions_with_repeated_operands")
+        try:
+            if intervals.decode(port.sport) != wset:
+                problems.append(f"sport {port.sport[:60]!r} does not decode to {intervals.encode(wset)[:60]!r}")
+        except ValueError:
+            problems.append(f"sport {port.sport[:60]!r} is not decodable")
     line0 = port.line
     try:
         again = reader.read_port(line0.split(), 0, 6 if proto == "tcp" else 17)[0]
@@ -184,7 +211,7 @@ def execute(ctx, case: dict) -> None:
                           f"{type(ex).__name__}: {ex}")
             break
         ctx.count("writebacks_judged")
-        if port.line != line0:
+        if port.line != line0 and not dup:
             ctx.violation(case, f"assigning an expression's own {view} back changed its text",
                           {"before": line0, "after": port.line})
             break
@@ -245,7 +272,11 @@ def gen_cases(ctx):
             for _ in range(rng.randint(1, 8)):
                 lo = grammar.rand_port(rng)
                 parts.append((lo, min(65535, lo + rng.choice([0, 0, 1, 2, 10, 300]))))
-            yield {"k": "codec", "set": intervals.norm(parts), "shuffle": rng.choice([0, rng.randint(1, 999)])}
+            if rng.random() < 0.2:  # one small window with holes
+                lo = min(grammar.rand_port(rng), 65500)
+                parts = [(lo, lo)] + [(v, v) for v in range(lo + 1, lo + 5) if rng.random() < 0.4] + [(lo + 5, lo + 5)]
+            yield {"k": "codec", "set": intervals.norm(parts), "shuffle": rng.choice([0, rng.randint(1, 999)]),
+                   "dup": rng.choice([0, 0, 0, rng.randint(1, 999)])}
             continue
         platform = rng.choice(["ios", "ios", "nxos"])
         version = rng.choice(grammar.VERSIONS)
@@ -267,6 +298,22 @@ def gen_cases(ctx):
         case = {"k": "expr", "text": port["text"], "proto": proto, "platform": platform, "version": version,
                 "port_nr": rng.random() < 0.3, "history": hist}
         toks = port["text"].split()
+        if platform == "ios" and toks[0] == "eq" and rng.random() < 0.15:
+            # repeated operands ('eq 7 7 9'): stored as given; only the denoted set is judged, not the text
+            if len(toks) <= 3 and rng.random() < 0.5:  # small window with holes, as many repeats as holes
+                lo = grammar.rand_port(rng)
+                lo = min(lo, 65530)
+                keep = [lo] + [v for v in range(lo + 1, lo + 4) if rng.random() < 0.4] + [lo + 4]
+                toks = ["eq"] + [str(v) for v in keep]
+                extra = [str(rng.choice(keep)) for _ in range(5 - len(keep))] or [str(lo)]
+            else:
+                extra = [rng.choice(toks[1:]) for _ in range(rng.randint(1, 2))]
+            for tok in extra:
+                toks.insert(rng.randint(1, len(toks)), tok)
+            case["text"] = " ".join(toks)
+            case["dups"] = True
+            yield case
+            continue
         if rng.random() < 0.3 and all(t.isdigit() for t in toks[1:]) and toks[0] != "neq" and len(set(toks[1:])) == len(toks[1:]):
             # same operands, other operator (and back)
             alts = {1: ["eq", "lt", "gt"], 2: ["range", "eq"] if platform == "ios" else ["range"]}.get(len(toks) - 1, [])
@@ -299,6 +346,7 @@ def run(ctx) -> None:
                        n=max(1, STATS["inv"] - inv0 + STATS["codec"] - cod0))
     ctx.count("invariant_evaluations", STATS["inv"])
     ctx.count("codec_contract_evaluations", STATS["codec"])
+    ctx.count("invariant_evaluations_with_repeated_operands", STATS.get("dup", 0))
     ctx.count("cases", done)
 
 
